@@ -11,7 +11,7 @@
 (* PROP:policy_keys (either tier), PROP:stale_read.                           *)
 (* Verdicts: <<"V", id, verdict, pos, taint>>  <<"D", id, "MODEL:..", pos>>   *)
 (* taint {1} = "tier_promotion_overwrites_newer_write" made a difference on   *)
-(* the key of the failing read.                                               *)
+(* the key of the failing read; {2} = "l1_put_rewrites_backing_late".         *)
 EXTENDS Tiered, Json, IOUtils
 
 CONSTANTS Dev
@@ -70,7 +70,8 @@ StepF(T, ll, a) ==
                     THEN <<"PROP:capacity", {}>>
                ELSE IF Flags(r.k1) # cached1 \/ Flags(r.k2) # cached2 \/ r.xk > 0 THEN <<"PROP:policy_keys", {}>>
                ELSE IF r.kind = "get" /\ r.last /\ ~ReadOK(h2, r.k, spos, r.ret)
-                    THEN <<"PROP:stale_read", IF T1 \in o.s.taint[r.k] THEN {1} ELSE {}>>
+                    THEN <<"PROP:stale_read", (IF T1 \in o.s.taint[r.k] THEN {1} ELSE {}) \cup
+                                              (IF T2 \in o.s.taint[r.k] THEN {2} ELSE {})>>
                ELSE <<"", {}>>
     IN [s |-> ns, h |-> h2,
         st0 |-> IF r.seg = 1 THEN (r.o :> ll) @@ a.st0 ELSE a.st0,
